@@ -301,7 +301,7 @@ func (c19) Run(t *tape.Tape, cfg sim.Config) (res sim.Result) {
 		if n.kind != "mc" {
 			return true
 		}
-		return observeMC(&res, rt, n, i, after, stdouts, cfg.Class == "tree-sock" && t.Chance(1, 2))
+		return observeMC(&res, rt, n, i, after, stdouts, cfg.Class == "tree-sock" && t.Chance(1, 2), t.Chance(1, 3))
 	}
 	for step := 0; step < nsteps && res.Violation == nil; step++ {
 		client := t.Choose(3)
@@ -541,10 +541,10 @@ func clip(s string) string {
 
 // observeMC instantiates the shim with the node's configuration and compares
 // what the guest sees with the node's record.
-func observeMC(res *sim.Result, rt any, n *node, idx int, after string, stdouts []*bytes.Buffer, withSock bool) bool {
+func observeMC(res *sim.Result, rt any, n *node, idx int, after string, stdouts []*bytes.Buffer, withSock, namedBinary bool) bool {
 	rec := n.mc
 	mc := n.val.(wazero.ModuleConfig)
-	g, err := newGuestKeepName(mc, rt, withSock)
+	g, err := newGuestKeepName(mc, rt, withSock, namedBinary)
 	if err != nil {
 		res.Fail("config-observation", "after %s: instantiating with node %d (%s) failed: %v", after, idx, n.how, err)
 		return false
@@ -557,6 +557,9 @@ func observeMC(res *sim.Result, rt any, n *node, idx int, after string, stdouts 
 	}
 	// module name
 	wantName := ""
+	if namedBinary {
+		wantName = "named-shim" // the binary's own name applies when the configuration sets none
+	}
 	if rec.nameSet {
 		wantName = rec.name
 	}
@@ -756,15 +759,22 @@ func observeMC(res *sim.Result, rt any, n *node, idx int, after string, stdouts 
 }
 
 // newGuestKeepName instantiates the shim keeping the node's own name.
-func newGuestKeepName(mc wazero.ModuleConfig, rt any, withSock bool) (*w.Guest, error) {
+func newGuestKeepName(mc wazero.ModuleConfig, rt any, withSock, namedBinary bool) (*w.Guest, error) {
 	e := rt.(interface {
 		InstantiateRaw(ctx context.Context, mc wazero.ModuleConfig) (api.Module, error)
+		InstantiateRawNamed(ctx context.Context, mc wazero.ModuleConfig) (api.Module, error)
 	})
 	ctx := context.Background()
 	if withSock {
 		ctx = sock.WithConfig(ctx, sock.NewConfig().WithTCPListener("127.0.0.1", 0))
 	}
-	mod, err := e.InstantiateRaw(ctx, mc)
+	var mod api.Module
+	var err error
+	if namedBinary {
+		mod, err = e.InstantiateRawNamed(ctx, mc)
+	} else {
+		mod, err = e.InstantiateRaw(ctx, mc)
+	}
 	if err != nil {
 		return nil, err
 	}
